@@ -105,6 +105,7 @@ func VerifC19Batch() {
 				}
 				for k := range pool {
 					vAssert(pool[k].Equal(&orig[k]), "every element stays Equal to its former value")
+					vAssert(pool[k].Bytes() == orig[k].Bytes(), "every element keeps its encoding")
 				}
 			}
 		}
